@@ -1,6 +1,7 @@
 package eng
 
 import (
+	"os"
 	"fmt"
 	"go/token"
 	"go/types"
@@ -465,7 +466,10 @@ func (e *Engine) applyContract(fr *Frame, st *State, c *Contract, fn *ssa.Functi
 		e.bumpTime(st)
 	}
 	// frame
+	prevPre := e.callPreTime
+	e.callPreTime = pre.time().S
 	e.havocModifies(fr, st, c, args)
+	e.callPreTime = prevPre
 	// results
 	var results []Val
 	nres := sig.Results().Len()
@@ -641,7 +645,15 @@ func (e *Engine) havocModifies(fr *Frame, st *State, c *Contract, args []Val) {
 			}
 			nv := e.fresh(old.Sort, "hv_"+h)
 			if loc != nil {
-				e.emit(fmt.Sprintf("(assert (forall ((x Ref)) (! (=> (not %s) (= (select %s x) (select %s x))) :pattern ((select %s x)))))", loc(T{"x", sRef}).S, nv.S, old.S, nv.S))
+				// (objects the callee allocates are outside the frame: what the pre-heap "holds"
+				// for a reference that did not exist yet is junk, and equating the new contents
+				// with it contradicted the callee's post-condition about them - found on pkDiff,
+				// where it made the path through AddOrSkip(nil, x) infeasible, DESIGN section 10)
+				guard := "(not " + loc(T{"x", sRef}).S + ")"
+				if e.callPreTime != "" && os.Getenv("GVC_OLDFRAME") == "" {
+					guard = fmt.Sprintf("(and %s (< (newid x) %s))", guard, e.callPreTime)
+				}
+				e.emit(fmt.Sprintf("(assert (forall ((x Ref)) (! (=> %s (= (select %s x) (select %s x))) :pattern ((select %s x)))))", guard, nv.S, old.S, nv.S))
 			}
 			st.heaps[h] = nv
 			e.heapWf(st, nv)
